@@ -89,6 +89,8 @@ def _replay(item):
       it.set_tensor(name2idx[info["names"][0][t]], d["x%d" % i])
     it.invoke()
     truth.append({t: (float(np.min(it.get_tensor(name2idx[info["names"][0][t]]))), float(np.max(it.get_tensor(name2idx[info["names"][0][t]])))) for t in acts})
+  from harness import project as _project
+  min_model = _project.read(model)
   q = quantizer.Quantizer(model)
   pipeline.apply_recipe(q, scn, info)
   out = {"model": mname, "beh": beh, "problems": [], "compared": 0, "need_cal": bool(q.need_calibration)}
@@ -138,8 +140,23 @@ def _replay(item):
       for t in o["ins"]:
         if t != -1 and sub["trole"][t] in ("w", "b", "c"):
           name = info["names"][0][t]
+          if sub["trole"][t] == "b":
+            continue     # biases take input x weight scale: no statistics of their own
           if name not in res or "min" not in res[name]:
-            continue     # biases are not calibrated
+            out["problems"].append(("const-missing", "constant %s of a selected operator has no statistics" % name))
+            continue
+          tensor = min_model.subgraphs[0].tensors[t]
+          cdata = np.frombuffer(np.asarray(min_model.buffers[tensor.buffer].data, np.uint8).tobytes(), np.float32).reshape(tensor.shape)
+          # the static config of these models quantises weights per channel (dimension 0 for FULLY_CONNECTED), generic
+          # constant operands per tensor: true min / max along the other dimensions
+          if sub["trole"][t] == "w":
+            tmn, tmx = cdata.min(axis=tuple(range(1, cdata.ndim)), keepdims=True), cdata.max(axis=tuple(range(1, cdata.ndim)), keepdims=True)
+          else:
+            tmn, tmx = cdata.min(keepdims=True), cdata.max(keepdims=True)
+          gmn, gmx = np.asarray(res[name]["min"]), np.asarray(res[name]["max"])
+          out["compared"] += 1
+          if gmn.shape != tmn.shape or not np.array_equal(gmn, tmn) or not np.array_equal(gmx, tmx):
+            out["problems"].append(("const-value", "statistics of constant %s differ from its true %s min/max" % (name, "per-channel" if sub["trole"][t] == "w" else "per-tensor")))
   return out
 
 
